@@ -249,6 +249,30 @@ pub fn check(job: &Job, faults: &[Fault], rec: &Record, content_check: bool) -> 
                     }
                 }
             }
+            if let Some(spec) = &job.spec {
+                // "every requested output produced" includes the `-p` groups:
+                // with -q, stdout is exactly the formatted result of each
+                // print group, in order, each followed by a line break
+                let (ins2, _) = touched(rec);
+                let overwrote_input = rec.writes.iter().any(|w| ins2.contains(&w.resolved));
+                if content_check && faults.is_empty() && spec.quiet && !spec.debug_iters && !spec.help && !spec.version && !overwrote_input && spec.groups.iter().any(|g| g.print) {
+                    let mut expected: Option<Vec<u8>> = Some(Vec::new());
+                    for g in spec.groups.iter().filter(|g| g.print) {
+                        match (expected.as_mut(), expected_group_bytes(job, &g.format, true)) {
+                            (Some(acc), Some(bytes)) => {
+                                acc.extend_from_slice(String::from_utf8_lossy(&bytes).as_bytes());
+                                acc.push(b'\n');
+                            }
+                            _ => expected = None,
+                        }
+                    }
+                    if let Some(exp) = expected {
+                        if exp != rec.stdout {
+                            v.push(Violation::new("I2-printed-output-mismatch", format!("stdout does not hold the requested `-p` output(s): {} byte(s) printed, {} expected | {}", rec.stdout.len(), exp.len(), ctx)));
+                        }
+                    }
+                }
+            }
             if rec.lib.ran && rec.lib.panic.is_none() && !rec.lib.has_output && faults.is_empty() {
                 v.push(Violation::new("I3-driver-ok-library-no-output", format!("driver succeeded but asm::assemble gave no output | {}", ctx)));
             }
@@ -274,6 +298,10 @@ pub fn check(job: &Job, faults: &[Fault], rec: &Record, content_check: bool) -> 
         Outcome::Panic(_) => {}
     }
 
+    // I3 for the string convenience API of src/lib.rs
+    if let Some(msg) = &rec.lib.str_api {
+        v.push(Violation::new(&format!("I3-str-api:{}", msg.split(':').next().unwrap_or("")), format!("assemble_str_to_binary on the root text: {} | {}", msg, ctx)));
+    }
     // I3 library level
     if rec.lib.ran && rec.lib.panic.is_none() {
         let l = &rec.lib;
